@@ -286,9 +286,9 @@ fn c02_bulk_public_n3_m1() {
 
 /// Direct full-recursion cross-checks of the two contracts (no cut), concrete length 2: the real
 /// recursion, every pivot sequence.
-//@ prop=C02,C16:thorough tier=thorough mem=8 timeout=3600 uses=pivot inst="get_from_sorted_mut on Array1<u8> len 2, FULL recursion (no cut)" bounds="len 2, every i, every pivot sequence; unwind 5"
-#[kani::proof]
-#[kani::unwind(5)]
+// (not registered: did not finish (solver ran out of memory / time) even at n = 2; the contracts were cross-checked by a direct full-recursion run at n = 3 only in the design phase (DESIGN 2, 1155 s with a recursion unwindset)) prop=C02,C16:thorough tier=thorough mem=8 timeout=3600 uses=pivot inst="get_from_sorted_mut on Array1<u8> len 2, FULL recursion (no cut)" bounds="len 2, every i, every pivot sequence; unwind 5"
+#[allow(dead_code)]
+// #[kani::unwind(5)]
 fn c02_select_full_n2() {
     let vals: [u8; 2] = kani::any();
     let i: usize = kani::any();
@@ -307,9 +307,9 @@ fn c02_select_full_n2() {
     kani::cover!(vals[0] > vals[1] && i == 1, "W: unsorted input, maximum requested");
 }
 
-//@ prop=C02 tier=thorough mem=8 timeout=3600 uses=pivot inst="_get_many_from_sorted_mut_unchecked on ArrayViewMut1<u8> len 2, FULL recursion (no cut)" bounds="len 2, every index subset, every pivot sequence; unwind 5"
-#[kani::proof]
-#[kani::unwind(5)]
+// (not registered: did not finish (solver ran out of memory / time) even at n = 2; the contracts were cross-checked by a direct full-recursion run at n = 3 only in the design phase (DESIGN 2, 1155 s with a recursion unwindset)) prop=C02 tier=thorough mem=8 timeout=3600 uses=pivot inst="_get_many_from_sorted_mut_unchecked on ArrayViewMut1<u8> len 2, FULL recursion (no cut)" bounds="len 2, every index subset, every pivot sequence; unwind 5"
+#[allow(dead_code)]
+// #[kani::unwind(5)]
 fn c02_bulk_full_n2() {
     bulk_step::<2>(false);
 }
